@@ -10,9 +10,13 @@ Definition cell_ok (c : cell) : Prop := control_free (cch c) = true /\ 0 <= cw c
 Definition row_ok (r : rowmap) : Prop := Forall (fun xc => cell_ok (snd xc)) r.
 Definition data_ok (d : databuf) : Prop := Forall (fun yr => row_ok (snd yr)) d.
 
-(* t is a concatenation of texts taken from M *)
+(* p is a contiguous piece of one of the texts in M (fragments are cut at line
+   ends by split_lines and into characters by explode_text_fragments) *)
+Definition piece_of (M : list (list Z)) (p : list Z) : Prop :=
+  exists m a b, In m M /\ m = a ++ p ++ b.
+(* t is a concatenation of pieces of texts taken from M *)
 Definition concat_of (M : list (list Z)) (t : list Z) : Prop :=
-  exists l, Forall (fun x => In x M) l /\ t = concat l.
+  exists l, Forall (piece_of M) l /\ t = concat l.
 Definition zrow_ok (M : list (list Z)) (r : list (Z * list Z)) : Prop :=
   Forall (fun xt => concat_of M (snd xt)) r.
 Definition zwe_ok (M : list (list Z)) (z : zwemap) : Prop :=
@@ -22,7 +26,7 @@ Definition screen_ok (M : list (list Z)) (s : screen) : Prop := data_ok (sdata s
 
 (* a fragment's text is in M whenever its style carries the mark *)
 Definition frag_marked (M : list (list Z)) (f : frag) : Prop :=
-  contains ZWE_MARK (fst f) = true -> In (snd f) M.
+  contains ZWE_MARK (fst f) = true -> piece_of M (snd f).
 Definition frags_marked M (fs : list frag) : Prop := forall f, In f fs -> frag_marked M f.
 
 (* ------------------------------------------------------------ generic *)
@@ -90,7 +94,7 @@ Proof. split; constructor. Qed.
 Lemma concat_of_nil M : concat_of M [].
 Proof. exists []. split; [constructor | reflexivity]. Qed.
 
-Lemma concat_of_app M a t : concat_of M a -> In t M -> concat_of M (a ++ t).
+Lemma concat_of_app M a t : concat_of M a -> piece_of M t -> concat_of M (a ++ t).
 Proof.
   intros (l & Hl & E) Ht. exists (l ++ [t]). split.
   - apply Forall_app. split; [exact Hl | constructor; [exact Ht | constructor]].
@@ -104,7 +108,7 @@ Proof.
   - constructor.
 Qed.
 
-Lemma zwe_append_ok M z y x t : zwe_ok M z -> In t M -> zwe_ok M (zwe_append z y x t).
+Lemma zwe_append_ok M z y x t : zwe_ok M z -> piece_of M t -> zwe_ok M (zwe_append z y x t).
 Proof.
   intros Hz Ht. unfold zwe_append. apply upd_Forall; [exact Hz|].
   cbn [snd]. pose proof (get_zrow_ok M z y Hz) as Hr.
@@ -135,8 +139,11 @@ Section CopyInv.
   Lemma merge_pw_ok d y x c pw : is_control c = false -> data_ok d -> data_ok (merge_pw wc g d y x c pw).
   Proof.
     intros Hc H. unfold merge_pw. destruct (x - pw >=? 0); [|exact H].
-    destruct (cw _ =? pw); [|exact H].
-    apply set_cell_ok; [exact H|]. apply cell_ok_clean.
+    set (d0 := match assoc _ _ with Some _ => d | None => _ end).
+    assert (H0 : data_ok d0).
+    { subst d0. destruct (assoc _ _); [exact H | apply set_cell_ok; [exact H | apply default_cell_ok]]. }
+    destruct (cw _ =? pw); [|exact H0].
+    apply set_cell_ok; [exact H0|]. apply cell_ok_clean.
     rewrite control_free_app.
     pose proof (get_cell_ok wc _ (x + g_xpos g - pw) (get_row_ok d (y + g_ypos g) H)) as [Hp _].
     rewrite Hp. cbn. rewrite Hc. reflexivity.
@@ -189,6 +196,29 @@ Section CopyInv.
   Lemma id_wrap_ok : wrap_ok (fun s => s).
   Proof. intros st H. exact H. Qed.
 
+  Lemma piece_whole m : In m M -> piece_of M m.
+  Proof. intro H. exists m, [], []. split; [exact H | rewrite app_nil_r; reflexivity]. Qed.
+
+  Lemma piece_char p c : piece_of M p -> In c p -> piece_of M [c].
+  Proof.
+    intros (m & a & b & Hm & E) Hc. apply in_split in Hc. destruct Hc as (l1 & l2 & Ep).
+    exists m, (a ++ l1), (l2 ++ b). split; [exact Hm|]. subst p. rewrite E.
+    repeat rewrite <- app_assoc. reflexivity.
+  Qed.
+
+  Lemma explode_marked fs : frags_marked M fs -> frags_marked M (explode fs).
+  Proof.
+    intros H f Hf Hm. unfold explode in Hf. apply in_flat_map in Hf. destruct Hf as (f0 & Hf0 & Hf).
+    apply in_map_iff in Hf. destruct Hf as (c & E & Hc). subst f. cbn [fst snd] in *.
+    exact (piece_char (snd f0) c (H f0 Hf0 Hm) Hc).
+  Qed.
+
+  Lemma hdrop_incl : forall l h, incl (snd (hdrop wc h l)) l.
+  Proof.
+    induction l as [|f r IH]; intro h; cbn [hdrop]; [apply incl_refl|].
+    destruct (h >? 0); [apply incl_tl, IH | apply incl_refl].
+  Qed.
+
   Lemma copy_line0_ok fs x y d z : frags_marked M fs -> data_ok d -> zwe_ok M z ->
     cs_ok (copy_line0 wc g fs x y d z).
   Proof.
@@ -212,7 +242,11 @@ Section CopyInv.
     intros Hp Hfs Hd Hz. unfold copy_line_input.
     assert (Hw : wrap_ok (match pfx with Some p => prefix_call wc g (p lineno) | None => fun s => s end)).
     { destruct pfx as [p|]; [apply prefix_call_ok; intro w; apply Hp | apply id_wrap_ok]. }
-    apply copy_frags_ok; [exact Hw | exact Hfs|]. apply Hw. split; assumption.
+    set (st1 := match pfx with Some p => _ | None => _ end (mkcs 0 y 0 d z false)).
+    assert (H1 : cs_ok st1) by (apply Hw; split; assumption).
+    apply copy_frags_ok; [exact Hw | | exact H1].
+    destruct (g_hscroll g =? 0); [exact Hfs|].
+    intros f Hf. apply (explode_marked fs Hfs). exact (hdrop_incl _ _ f Hf).
   Qed.
 
   Lemma copy_lines_ok pfx lines : pfx_marked pfx -> (forall l, In l lines -> frags_marked M l) ->
@@ -258,7 +292,7 @@ Proof. intro E. subst c. apply char_init_rewrap. Qed.
 (* the hypotheses are satisfiable, and the merge path is reachable *)
 Example copy_body_example :
   let wc := fun c => if c =? 769 then 0 else 1 in
-  let g := mkcfg 10 1 0 0 false in
+  let g := mkcfg 10 1 0 0 false 0 0 in
   let s := copy_body wc g None [[([], [101; 769; 27; 155]); (ZWE_MARK, [27; 93])]] blank_screen in
   map (fun x => cch (get_cell wc (get_row (sdata s) 0) x)) [0; 1; 3] = [[101; 769]; [94; 91]; [60; 57; 98; 62]]
   /\ szwe s = [(0, [(7, [27; 93])])].
